@@ -4,7 +4,7 @@ from core import *
 from core import verdicts as core_verdicts
 
 PID = "C12"
-NFRAG, NMODELS = 16, 11
+NFRAG, NMODELS = 16, 12
 FRAG = {1: "partition model solved", 2: "class-LMI + user LMI model solved", 3: "composite function model solved",
         4: "linear operator with transpose + LMI solved", 5: "construction that raises", 6: "model built and abandoned",
         7: "unbounded solve (None)", 8: "solved model kept referenced and evaluated", 9: "verbose solve",
@@ -53,7 +53,7 @@ def run_items(items):
         r = refs[(t["b"], t["verbose"])]
         o = refs.get((t["b"], (t["verbose"] + 1) % 3), r)      # the same model at the next verbosity level (0 -> 1 -> 2 -> 0)
         t.update(ref_snap=r["snap"], ref_hash=r["hash"], ref_rows=r["rows"], ref_val=r["val"], ref_out=r["out"],
-                 oth_hash=o["hash"], oth_rows=o["rows"], oth_val=o["val"], oth_out=o["out"])
+                 oth_hash=o["hash"], oth_rows=o["rows"], oth_val=o["val"], oth_out=o["out"], ref_inst=r["inst"], oth_inst=o["inst"])
     return traces
 
 
@@ -87,7 +87,7 @@ def run(tier):
     res.rule = ("histories = behaviours of spec/Registry.tla: every history of <= 1 fragment and a seeded sample of longer ones "
                 "(<= %d fragments out of 16: partition / LMI / composite / linear-operator models, failed construction, abandoned "
                 "model, unbounded and infeasible solves, referenced objects, verbose and heuristic solves, earlier models released or "
-                "garbage collected while B is being built) followed by each of 11 models B (two of them without a finite value); compared with B in a fresh interpreter: registry snapshot after PEP() (reflection over all class "
+                "garbage collected while B is being built) followed by each of 12 models B (two of them without a finite value, three with dimension reduction); compared with B in a fresh interpreter: registry snapshot after PEP() (reflection over all class "
                 "attributes), SHA-256 of the conic data and of the symbolic rows (exact float bits), returned value" % (
                     2 if tier == "quick" else 3))
     res.samples = [dict(history=[FRAG[k] for k in t["hist"]], model=t["b"], conic_hash=t["hash"], value=t["val"]) for t in
